@@ -39,14 +39,33 @@ def directed(ctx, case, g):
          dict(op='validate', doc=part, update=True, normalize=False)],
         [dict(op='validate', doc=5, update=False, normalize=True), dict(op='validated', doc=part, update=False, normalize=True, always=False)],
     ]
+    # a per-call schema that compares equal to the schema in force (1 == 1.0 == True) but is another schema
+    if all(isinstance(k, str) and k != 'zq' for k in case['schema']):
+        s1 = dict(copy.deepcopy(case['schema']), zq={'default': 1})
+        s2 = dict(copy.deepcopy(case['schema']), zq={'default': 1.0})
+        s3 = dict(copy.deepcopy(case['schema']), zq={'default': True})
+        d = {k: x for k, x in part.items() if k != 'zq'} if isinstance(part, dict) else {}
+        pats.append([dict(op='validate', doc=d, update=False, normalize=True, schema_raw=s1, schema_acc=s1),
+                     dict(op='validate', doc=d, update=False, normalize=True, schema_raw=s2, schema_acc=s2)])
+        pats.append([dict(op='normalized', doc=d, always=True, schema_raw=s3, schema_acc=s3),
+                     dict(op='validate', doc=full, update=True, normalize=False),
+                     dict(op='validated', doc=d, update=False, normalize=True, always=True, schema_raw=s1, schema_acc=s1)])
+    # a per-call schema whose field names are rule names, then the same mapping where a rule set is expected
+    # (what an earlier call accepted as a schema must not count as an accepted rule set)
+    form = {'required': {'type': 'boolean'}, 'nullable': {'type': 'boolean'}}
+    for wrap in ({'a': {'anyof': [form]}}, {'a': {'type': 'dict', 'valuesrules': form}}, {'a': {'type': 'list', 'items': [form]}}):
+        pats.append([dict(op='validate', doc={'required': True}, update=False, normalize=True, schema_raw=form, schema_acc=form),
+                     dict(op='validate', doc={'a': 5}, update=False, normalize=True, schema_raw=wrap, schema_acc=None)])
     for ops in pats:
         try:
+            real.Validator.clear_caches()
             v = real.make_validator(case)
             for op in ops[:-1]:
                 api.run_real_op(v, op)
             r = api.run_real_op(v, ops[-1])
             o = api.observe_real(v)
             o['ret'] = r['ret']
+            real.Validator.clear_caches()
             f = fresh_like(case, v, ())
             rf = api.run_real_op(f, ops[-1])
             of = api.observe_real(f)
